@@ -35,7 +35,7 @@ def main():
         demo = os.path.join(src, "demo.py")
         txt = open(demo).read()
         # demos were written against the agent's own worktree path; point them at ours
-        for old in [f"/tmp/mut6_{prop}", f"/tmp/mut5_{prop}", f"/tmp/mut4_{prop}", f"/tmp/mut3_{prop}", f"/tmp/mut2_{prop}", f"/tmp/mut_{prop}"]:
+        for old in [f"/tmp/mut7_{prop}", f"/tmp/mut6_{prop}", f"/tmp/mut5_{prop}", f"/tmp/mut4_{prop}", f"/tmp/mut3_{prop}", f"/tmp/mut2_{prop}", f"/tmp/mut_{prop}"]:
             txt = txt.replace(old + "/", wt + "/").replace(f'"{old}"', f'"{wt}"').replace(f"'{old}'", f"'{wt}'")
         demo_local = os.path.join(wt, "_demo.py")
         open(demo_local, "w").write(txt)
